@@ -121,6 +121,13 @@ func ForEach(generate GenerateFunc, mapper ForEachFunc, opts ...Option) {
 			panic(v)
 		case _, ok := <-collector:
 			if !ok {
+				// panicChan 带缓冲：panic 的转发与 collector 的关闭可能都先于本 select 就绪，select 随机选中了本分支。
+				// collector 关闭时所有加工者均已结束，其 panic 必已写入；返回前补收一次，避免吞掉 panic。
+				select {
+				case v := <-panicChan.channel:
+					panic(v)
+				default:
+				}
 				return
 			}
 		}
